@@ -148,7 +148,10 @@ pub fn ops() -> Vec<(&'static str, Op)> {
         let op = Select::new(Random).and(Select::new(Best)).then_map(GenomeExtractor).then(Recombine::new(TwoPointXo));
         v.push(("and_then_two_point", Box::new(move |a, r| { let pop = population(a); dbg(op.apply(&pop, r).map_err(|e| e.to_string())) })));
     }
+    #[cfg(feature = "optional_flavours")]
     {
+        // (the population's members carry another result type than the scorer returns: any population
+        // type is accepted)
         let op = GenomeScorer::new(Select::new(Random).then(GenomeExtractor).then(Mutate::new(WithRate::new(0.5))),
                                    ec_core::individual::scorer::FnScorer(|g: &Vec<bool>| g.iter().filter(|b| **b).count()));
         v.push(("genome_scorer_pipeline", Box::new(move |a, r| { let pop = population(a); dbg(op.apply(&pop, r).map(|i| (i.genome, i.test_results)).map_err(|e| e.to_string())) })));
@@ -291,6 +294,19 @@ pub fn push_trace(args: &[String]) -> i32 {
             .unwrap_or_else(|m| json!({"status": "panic", "stacks": m}));
             out.line(&json!({"ev": "obs", "run": run, "op": "push", "phase": format!("declaration_order_{rotation}"),
                              "key": format!("push|run{run}"), "val": val}));
+        }
+    }
+    // a finished state given more code and run again evaluates like the same state built afresh (the
+    // step limit bounds each evaluation; nothing is carried from one evaluation to the next)
+    for run in first..first + runs {
+        let mut rng = run_rng(seed, 0xC16B, run);
+        let (sv, max, inputs, limit) = crate::vm::random_config(&mut rng, &pool);
+        let diff = crate::vm::continue_with_more_code(&sv, &max, &inputs, limit.max(2));
+        out.line(&json!({"ev": "reset", "run": format!("more{run}"), "op": "push-more-code"}));
+        for (phase, val) in [("built afresh", json!({"status": "same", "stacks": ""})),
+                             ("finished state run again", json!({"status": if diff.is_some() { "differs" } else { "same" }, "stacks": diff.clone().unwrap_or_default()}))] {
+            out.line(&json!({"ev": "obs", "run": format!("more{run}"), "op": "push-more-code", "phase": phase,
+                             "key": format!("push-more-code|run{run}"), "val": val}));
         }
     }
     // a program that mentions a name NO input was declared under, while other inputs differ from it
